@@ -371,3 +371,28 @@ Fixpoint prun (st : pstate) (p : str) : option pstate :=
 
 Definition well_formed (pattern : str) : bool :=
   match prun PTop pattern with Some PTop => true | _ => false end.
+
+(* ======================= what Glob denotes (for well-formed patterns) =======================
+   One level: the names of directory [dir] that match [file], sorted, each joined onto [dir].
+   A pattern: the levels of all directories the directory part denotes, concatenated in order. *)
+Definition matches (file n : str) : bool :=
+  match match_seg file n with Some true => true | _ => false end.
+
+Definition glob_level (t : tree) (dir file : str) : list str :=
+  match lookup t dir with
+  | Some (D kids) => map (fun n => path_join [dir; n]) (filter (matches file) (sort_names (map fst kids)))
+  | _ => []
+  end.
+
+Fixpoint glob_spec_f (fuel : nat) (t : tree) (pat : str) : list str :=
+  match fuel with
+  | O => []
+  | S f =>
+    if negb (has_meta pat) then match lookup t pat with Some _ => [pat] | None => [] end
+    else
+      let dir := clean_glob_path (fst (path_split pat)) in
+      let file := snd (path_split pat) in
+      if negb (has_meta dir) then glob_level t dir file
+      else flat_map (fun d => glob_level t d file) (glob_spec_f f t dir)
+  end.
+Definition glob_spec (t : tree) (pat : str) : list str := glob_spec_f (S (length pat)) t pat.
